@@ -32,6 +32,7 @@ META = {
 META['bounds'].append('a table / function converter registered on Length and removed again: 5 unit pairs x 3 converter kinds')
 META['bounds'].append('fourth user program: units sharing a descriptive name, unit-first two-item terms with different exponents, int with exponent 3')
 META['bounds'].append('fourth user program, third type: units declared by the reciprocal of (normalised) definitions')
+META['bounds'].append("fourth user program: 8 units declared with SI prefixes (KILO ... ZEPTO, YOCTO, EXA), scales from the harness' own exponents")
 
 
 def setup(mode):
